@@ -17,3 +17,9 @@ mod c11;
 mod c15;
 #[cfg(kani)]
 mod c19;
+#[cfg(kani)]
+mod model_deque;
+#[cfg(kani)]
+mod gen_cc;
+#[cfg(kani)]
+mod c15cal;
